@@ -333,10 +333,16 @@ def oracle_unsound(ctx) -> None:
     ctx.stats["unsound_oracle_cases"] = n
 
 
+# the end-to-end oracle also covers column types for which the writer stores NO bounds (binary): pruning must then
+# never skip anything
+E2E_DOMAIN = dict(DOMAIN)
+E2E_DOMAIN["binary"] = [b"", b"a", b"ab", b"zz"]
+
+
 def _rand_value(rng, kind: str) -> Any:
     if rng.random() < 0.2:
         return None
-    return rng.choice(DOMAIN[kind])
+    return rng.choice(E2E_DOMAIN[kind])
 
 
 def oracle_e2e(ctx) -> None:
@@ -344,14 +350,16 @@ def oracle_e2e(ctx) -> None:
     from datashard import create_table, filters
     from datashard.data_structures import Schema
     rng = ctx.rng
-    ntables = 12 if ctx.tier == "quick" else 120
-    kinds = list(DOMAIN)
+    ntables = 24 if ctx.tier == "quick" else 200
+    kinds = list(E2E_DOMAIN)
     total = 0
     skipped_raise = 0
     differing = 0
     real_prune = filters.prune_files_by_bounds
     for t in range(ntables):
         cols = rng.sample(kinds, rng.choice([1, 2, 3]))
+        if t % 4 == 0:
+            cols = ["binary", rng.choice([k for k in kinds if k != "binary"])]     # a column without bounds next to one with bounds
         fields = [{"id": i + 1, "name": f"c{i}", "type": k, "required": False} for i, k in enumerate(cols)]
         schema = Schema(schema_id=1, fields=fields)
         path = os.path.join(ctx.scratch, f"t{t}")
@@ -368,7 +376,7 @@ def oracle_e2e(ctx) -> None:
             flt = {}
             for _c in range(rng.choice([1, 1, 2])):
                 i = rng.randrange(len(cols))
-                dom = DOMAIN[cols[i]]
+                dom = E2E_DOMAIN[cols[i]]
                 r = rng.random()
                 if r < 0.55:
                     flt[f"c{i}"] = (rng.choice(["==", "!=", "<", "<=", ">", ">="]), rng.choice(dom + LITERALS[:21] if cols[i] in ("long", "int", "double", "float") else dom))
